@@ -169,6 +169,91 @@ class GrammarGen:
             return out
         return _sentence()
 
+    # ---- bounded-exhaustive part: every production combined with every alternative of each of its nonterminals ----
+
+    def _default_lexeme(self, sym):
+        return POOLS['lite'][sym][0] if sym in POOLS['lite'] else self.kw[sym]
+
+    def min_sentence(self, sym, _memo=None):
+        """token list of a minimal-depth derivation of `sym` (first usable alternative in depth order)"""
+        memo = self.__dict__.setdefault('_min_memo', {})
+        if sym in memo:
+            return memo[sym]
+        if sym not in self.prods:
+            r = [self._default_lexeme(sym)]
+        else:
+            alts = [a for a in self.prods[sym] if self.usable(a)]
+            # an ordinary name rather than the alphabetically first keyword that may serve as a name
+            r = self.expand(('ID',) if ('ID',) in alts else ('id',) if ('id',) in alts else alts[0])
+        memo[sym] = r
+        return r
+
+    def expand(self, alt, at=None, with_alt=None):
+        """tokens of production body `alt` with minimal children, position `at` expanded through `with_alt`"""
+        out = []
+        for i, s in enumerate(alt):
+            if i == at:
+                out.extend(self.expand(with_alt))
+            else:
+                out.extend(self.min_sentence(s))
+        return out
+
+    def contexts(self):
+        """{nonterminal: (prefix tokens, suffix tokens)}: a shortest sentence frame around the nonterminal"""
+        if '_ctx' in self.__dict__:
+            return self._ctx
+        ctx = {self.start: ([], [])}
+        frontier = [self.start]
+        while frontier:
+            nxt = []
+            for n in frontier:
+                pre, suf = ctx[n]
+                for a in self.prods[n]:
+                    if not self.usable(a):
+                        continue
+                    for i, s in enumerate(a):
+                        if s in self.prods and s not in ctx:
+                            left, right = [], []
+                            for x in a[:i]:
+                                left.extend(self.min_sentence(x))
+                            for x in a[i + 1:]:
+                                right.extend(self.min_sentence(x))
+                            ctx[s] = (pre + left, right + suf)
+                            nxt.append(s)
+            frontier = nxt
+        self._ctx = ctx
+        return ctx
+
+    def pair_sentences(self):
+        """Deterministic list of (label, tokens): for every usable production N -> X1..Xk, once with minimal children,
+        and for every nonterminal position i and every usable alternative q of Xi once with Xi derived through q;
+        all other symbols minimal, the whole placed in a shortest frame from the start symbol."""
+        if '_pairs' in self.__dict__:
+            return self._pairs
+        ctx = self.contexts()
+        out, seen = [], set()
+        for n in sorted(self.prods):
+            if n not in ctx:
+                continue
+            pre, suf = ctx[n]
+            for a in self.prods[n]:
+                if not self.usable(a):
+                    continue
+                cands = [(f'{n}->{" ".join(a)}', self.expand(a))]
+                for i, s in enumerate(a):
+                    if s in self.prods:
+                        for q in self.prods[s]:
+                            if self.usable(q):
+                                cands.append((f'{n}->{" ".join(a)} @{i}:{" ".join(q) or "<empty>"}', self.expand(a, i, q)))
+                for label, mid in cands:
+                    toks = pre + mid + suf
+                    key = tuple(toks)
+                    if key not in seen and len(toks) <= 120:
+                        seen.add(key)
+                        out.append((label, toks))
+        self._pairs = out
+        return out
+
     def stratified_start(self):
         kinds = self.start_kinds
         core = [k for k in ('select', 'union') if k in kinds]
